@@ -20,7 +20,7 @@
 From Coq Require Import List NArith ZArith Bool.
 From PyTrie.Base Require Import Bytes Result Nibbles.
 From PyTrie.Base Require Import AMap Rlp.
-From PyTrie.Hexary Require Import Raw Tree Tree_aux Tree_map D D_read Refine_read Refine_write Refine_write_prune.
+From PyTrie.Hexary Require Import Raw Tree Tree_aux Tree_map D D_read Refine_read Refine_write Refine_write_prune Refine_batch.
 From PyTrie.Hexary Require Tree_unique.
 Import ListNotations.
 
@@ -103,6 +103,41 @@ Theorem C01_D_pruning : forall H BNH, (forall x, length (H x) = 32%nat) -> BNH =
                t_root (pstate H m rc (trun ops)) = yp_root H J).
 Proof. exact Refine_write_prune.C01_D_pruning. Qed.
 Print Assumptions C01_D_pruning.
+
+(* histories that mix direct writes with squash_changes blocks, committed or aborted
+   ([hop], [hrun], [flat] = the writes that take effect; Hexary/Refine_batch.v): the final state
+   is that of the writes that took effect, for both kinds of trie *)
+Theorem C01_D_nonpruning_batched : forall H BNH, (forall x, length (H x) = 32%nat) -> BNH = H (rlp_encode (RStr [])) ->
+  forall hs : list hop,
+  cf H (hist_bodies H (flat hs)) -> Forall (fun b => (blen b < 2 ^ 64)%N) (hist_bodies H (flat hs)) ->
+  let ops := map top_of (flat hs) in
+  exists m,
+    hrun H BNH hs (empty_trie BNH false) = (map hexpect hs, plain m (troot H (trun ops))) /\
+    represents H m (troot H (trun ops)) (trun ops) /\ content_addressed H m /\
+    (forall k, fst (get BNH k (plain m (troot H (trun ops)))) = Ok (spec_run ops (bytes_to_nibbles k))) /\
+    (forall J, Tree_unique.good_bindings J -> (forall q, nibs_ok q = true -> lookup J q = spec_run ops q) ->
+               t_root (plain m (troot H (trun ops))) = yp_root H J).
+Proof. exact Refine_batch.C01_D_nonpruning_batched. Qed.
+Print Assumptions C01_D_nonpruning_batched.
+
+Theorem C01_D_pruning_batched : forall H BNH, (forall x, length (H x) = 32%nat) -> BNH = H (rlp_encode (RStr [])) ->
+  forall hs : list hop,
+  cf H (hist_bodies H (flat hs)) -> Forall (fun b => (blen b < 2 ^ 64)%N) (hist_bodies H (flat hs)) ->
+  let ops := map top_of (flat hs) in
+  exists m rc,
+    hrun H BNH hs (empty_trie BNH true) = (map hexpect hs, pstate H m rc (trun ops)) /\
+    represents H m (troot H (trun ops)) (trun ops) /\ content_addressed H m /\
+    (forall h, zget rc h = occR H (trun ops) h) /\
+    (forall h, amem m h = true <-> Z.lt 0%Z (occR H (trun ops) h)) /\
+    (forall k, fst (get BNH k (pstate H m rc (trun ops))) = Ok (spec_run ops (bytes_to_nibbles k))) /\
+    (forall J, Tree_unique.good_bindings J -> (forall q, nibs_ok q = true -> lookup J q = spec_run ops q) ->
+               t_root (pstate H m rc (trun ops)) = yp_root H J).
+Proof. exact Refine_batch.C01_D_pruning_batched. Qed.
+Print Assumptions C01_D_pruning_batched.
+
+(* non-vacuity under Keccak-256: direct writes, three committed batches and one aborted batch *)
+Print Assumptions ex_hs_pruning.
+Print Assumptions ex_hs_nonpruning.
 
 (* the premises hold of a concrete 10-write history with the real Keccak-256 *)
 Print Assumptions ex_ws_theorem.
